@@ -27,6 +27,8 @@ const OUT_REL: [&str; 6] = ["d1", "d2", "p1", "p2", "work", "out"];
 struct AName {
     c: Vec<String>,
     s: Vec<String>,
+    /// index the plain / long / non-ASCII components are concretised with (entries that must share a literal prefix share it)
+    ix: Option<usize>,
 }
 
 fn parse_names(case: &Value) -> Vec<AName> {
@@ -35,6 +37,7 @@ fn parse_names(case: &Value) -> Vec<AName> {
         .map(|n| AName {
             c: ga(n, "c").iter().map(|x| x.as_str().unwrap().to_string()).collect(),
             s: ga(n, "s").iter().map(|x| x.as_str().unwrap().to_string()).collect(),
+            ix: n.get("ix").and_then(|x| x.as_u64()).map(|x| x as usize),
         })
         .collect()
 }
@@ -312,7 +315,8 @@ fn one_run(cli: &Path, base: &Path, case_id: &str, case: &Value, names: &[AName]
     let threads = *rng.pick(&[0usize, 1, 2]);
     let outform = *rng.pick(&["rel", "abs", "dotrel", "trail"]);
 
-    let concrete: Vec<String> = names.iter().enumerate().map(|(i, n)| concretise(n, i, &root)).collect();
+    let ix_of = |i: usize| names[i].ix.unwrap_or(i);
+    let concrete: Vec<String> = names.iter().enumerate().map(|(i, n)| concretise(n, ix_of(i), &root)).collect();
     // decoys: a file carrying the name's last path component, placed in cwd and in the stand-in root
     // (an escaping write may hit it: observed as `modified`)
     let mut decoys = 0;
@@ -494,7 +498,7 @@ fn one_run(cli: &Path, base: &Path, case_id: &str, case: &Value, names: &[AName]
         }
     }
     let err_tail: String = r.stderr.lines().rev().find(|l| l.contains("Error")).map(normalise_digits).unwrap_or_default();
-    let names_json: Vec<Value> = names.iter().enumerate().map(|(i, n)| json!({"c": n.c, "s": n.s, "r": class_of(i)})).collect();
+    let names_json: Vec<Value> = names.iter().enumerate().map(|(i, n)| json!({"c": n.c, "s": n.s, "r": class_of(i), "ix": ix_of(i)})).collect();
     let reset = json!({"ev":"Reset","case":case_id,"preserve":o.preserve,"chain":o.chain,"explicit":o.explicit,
         "hasroot":gb(case,"hasroot"),"hasparent":gb(case,"hasparent"),"selferr":gb(case,"selferr"),"n":n,"entries":entries});
     let ev = json!({"ev":"Extract","case":case_id,"preserve":o.preserve,"chain":o.chain,"explicit":o.explicit,
